@@ -57,7 +57,7 @@ theorem ok_quiescent (ms : List MOp) : ok (mrun init ms) = true ∧ okPrompt (mr
   · obtain ⟨ha, hs⟩ := settled_mrun ms AInv.init settled_init
     obtain ⟨ops, e⟩ := mrun_eq_steps init ms
     have he : EInv (mrun init ms) := e ▸ all3_steps Inv.init DInv.init EInv.init ops
-    have hq : QM (mrun init ms).target := qm_mrun ms Inv.init AInv.init (fun _ => rfl)
+    have hq : QM (mrun init ms).target := qm_mrun ms Inv.init AInv.init (fun _ _ => rfl)
     unfold okPrompt
     rw [(BInv.init.mrun ms).okPrompt1, stopsOk_of (BInv.init.mrun ms).inv ha hs, allHandledOk_of he hq]; rfl
 
@@ -130,10 +130,10 @@ the stop request is on record or the actor is gone, once a `kill_after` has acte
 is on record or the actor is gone (requests are never taken back), and after the target's task has
 run a recorded kill has been obeyed and a recorded stop has at least ended the message loop. -/
 theorem exit_after_stops (T : Target) (p now : Nat) (he : T.exit = none) :
-    (T.killReq = false → T.stopReq = none → T.stopping = none → T.psGate = false →
+    (T.killReq = false → T.stopReq = none → T.stopping = none → T.psGate = false → T.starting = false →
       ((T.stop (.exitAfter (asMillis p))).run now).exit = some (.exitAfter (asMillis p), now)) ∧
     (T.kill.run now).exit = some (.killed, now) :=
-  ⟨fun hk hs hst hg => stop_then_run T _ now he hk hs hst hg, kill_then_run T now he⟩
+  ⟨fun hk hs hst hg h0 => stop_then_run T _ now he hk hs hst hg h0, kill_then_run T now he⟩
 
 theorem acted_then_requested (ops : List Op) :
     let s := steps init ops
@@ -141,7 +141,8 @@ theorem acted_then_requested (ops : List Op) :
     (∀ τ ∈ s.timers, τ.kind = .killAfter → τ.sentAt ≠ [] → s.target.killReq = true ∨ s.target.exit ≠ none) ∧
     (((step s .target).target.killReq = true → (step s .target).target.exit ≠ none) ∧
      ((step s .target).target.stopReq ≠ none →
-        (step s .target).target.closedAt ≠ none ∨ (step s .target).target.exit ≠ none)) :=
+        (step s .target).target.closedAt ≠ none ∨ (step s .target).target.exit ≠ none ∨
+          (step s .target).target.starting = true)) :=
   ⟨(AInv.init.steps ops).exitA, (AInv.init.steps ops).killA,
    run_settled _ _ (AInv.init.steps ops).sc⟩
 
@@ -151,7 +152,7 @@ theorem acted_then_requested (ops : List Op) :
 `post_stop`). -/
 theorem acted_then_gone (ms : List MOp) (τ : Timer) (hτ : τ ∈ (mrun init ms).timers) (hne : τ.sentAt ≠ []) :
     (τ.kind = .killAfter → (mrun init ms).target.exit ≠ none) ∧
-    (τ.kind = .exitAfter → (mrun init ms).target.closedAt ≠ none) := by
+    (τ.kind = .exitAfter → (mrun init ms).target.closedAt ≠ none ∨ (mrun init ms).target.starting = true) := by
   obtain ⟨ha, hs⟩ := settled_mrun ms AInv.init settled_init
   have := stopsOk_of (BInv.init.mrun ms).inv ha hs
   rw [List.all_eq_true] at this
@@ -168,8 +169,10 @@ theorem acted_then_gone (ms : List MOp) (τ : Timer) (hτ : τ ∈ (mrun init ms
     intro h; rw [h] at this; simp at this
   · intro hk
     simp only [hk, hne', beq_self_eq_true, Bool.not_false, Bool.and_self, Bool.not_true, Bool.false_or,
-      Bool.and_eq_true] at this
-    intro h; rw [h] at this; simp at this
+      Bool.and_eq_true, Bool.or_eq_true] at this
+    rcases this.2 with h | h
+    · left; intro h'; rw [h'] at h; simp at h
+    · exact .inr h
 
 /-- "A timer whose target is no longer running delivers nothing", at DELIVERY level, for every
 schedule: every handled message was sent (its attempt was made) no later than the instant the target
@@ -192,16 +195,16 @@ theorem delivers_nothing_after_close (ops : List Op) :
 point every attempt `k` of every well-typed sending timer `i` — the one message of a `send_after`, the
 k-th message of a `send_interval` — has been handled exactly once. -/
 theorem delivered_exactly_once (ms : List MOp) (hcl : (mrun init ms).target.closedAt = none)
-    (i : Nat) (τ : Timer) (hi : (mrun init ms).timers[i]? = some τ) (hs : τ.kind.sends = true)
+    (hst : (mrun init ms).target.starting = false) (i : Nat) (τ : Timer) (hi : (mrun init ms).timers[i]? = some τ) (hs : τ.kind.sends = true)
     (hty : τ.typed = true) (k : Nat) (h1 : 1 ≤ k) (h2 : k ≤ τ.sentAt.length) :
     ((mrun init ms).target.handled.map (fun h => (h.1, h.2.1))).count (i, k) = 1 := by
   obtain ⟨ops, e⟩ := mrun_eq_steps init ms
   have he : EInv (mrun init ms) := e ▸ all3_steps Inv.init DInv.init EInv.init ops
   have hd : DInv (mrun init ms) := e ▸ DInv.init.steps Inv.init ops
-  have hq : QM (mrun init ms).target := qm_mrun ms Inv.init AInv.init (fun _ => rfl)
+  have hq : QM (mrun init ms).target := qm_mrun ms Inv.init AInv.init (fun _ _ => rfl)
   have hm := he.acc hcl i τ hi hs hty k h1 h2
   unfold Target.ids at hm
-  rw [hq hcl, List.nil_append] at hm
+  rw [hq hcl hst, List.nil_append] at hm
   rw [List.Nodup.count ((hmap_sub _).nodup hd.nodup)]
   simp [hm]
 
@@ -407,6 +410,21 @@ example : let s := mrun init [.hold, .create .interval 3000, .create .sendAfter 
 exit_after then finds nobody -/
 example : (mrun init [.create .exitAfter 1000, .advFail 1000]).target.exit = some (.failed, 1000) := by decide
 example : (Reason.failed).render = "<failed> poison" := rfl
+
+/-- a target still `Starting` (gated `post_start`): the messages of an interval and of a `send_after` are
+accepted and queue up, an `exit_after` that fires only leaves its request; when the message loop
+begins (10 ms) the stop request wins: nothing is handled, the actor exits with the timer's reason -/
+example : let s := mrun init [.startHold, .create .interval 3000, .create .sendAfter 2000, .create .exitAfter 4000,
+      .adv 3000, .adv 3000]
+    s.target.mbox = [(0, 1), (1, 1), (0, 2)] ∧ s.target.handled = [] ∧ s.target.exit = none ∧
+      s.timers.map (fun τ => (τ.res, τ.sentAt)) = [(.pending, [3000, 6000]), (.ok, [3000]), (.ok, [6000])] := by decide
+example : let s := mrun init [.startHold, .create .interval 3000, .create .exitAfter 4000, .adv 3000, .adv 3000,
+      .adv 4000, .started]
+    s.target.exit = some (.exitAfter 4, 10000) ∧ s.target.handled = [] := by decide
+/-- ... without a stop request the backlog is handled when the loop begins; a kill ends a Starting target at once -/
+example : (mrun init [.startHold, .create .sendAfter 2000, .adv 3000, .adv 4000, .started]).target.handled
+    = [(0, 1, 7000)] := by decide
+example : (mrun init [.startHold, .create .killAfter 2000, .adv 2000]).target.exit = some (.killed, 2000) := by decide
 
 /-- send_interval(0): panicked at the first poll, nothing sent, the target untouched; a later abort changes nothing -/
 example : let s := mrun init [.create .interval 0, .adv 5000, .abort 0]
